@@ -118,6 +118,13 @@ fn check_inner(c: &Case, exdev_at: Option<usize>) -> Option<(String, String)> {
             Err(p) => return Some((format!("panic-build:{}", panic_site(&p)), p)),
         }
     };
+    // An initial state without archives and bystanders is also a state without the archive *directory*: whatever
+    // building the roller may have created is taken away again before the first roll (for patterns whose archives
+    // do not share the live file's directory), and once more before the last roll of the chain.
+    let bare = c.initial.is_empty() && !c.bystanders && !c.delete_roller && c.count > 0 && c.pattern.starts_with("arch/");
+    if bare {
+        let _ = std::fs::remove_dir_all(sb.path("arch"));
+    }
     if let Some(k) = exdev_at {
         crate::engine::fsfault::begin(&sb.dir, crate::engine::fsfault::Plan { fail: vec![(k, libc::EXDEV)], snapshots: false, kinds: vec!["rename"], short: vec![] });
         crate::engine::fsfault::arm();
